@@ -26,7 +26,7 @@ RULE = ("workloads W1 cold first call, W2 warm call + miss, W3 call after the fu
         "processes (plain Memory, with expires_after(days=1), with a user-defined callback reading metadata['duration'] / ['time'], and through call_and_shelve(x).get() with check_call_in_cache compared against what the call then does - with a silent and with a verbose (verbose=11) Memory); in the thorough tier a third of them are recovered by a process that is itself killed at every second of its own mutating calls, and recovered again; distinct_nontrivial counts distinct (workload, crash "
         "point, crash mode) whose process was really killed by the shim")
 ASSUMPTIONS = [
-    "crash model: process death on a local file system - directory operations atomic, torn writes at page granularity",
+    "crash model: process death on a local file system - directory operations atomic, torn writes at page granularity; for func_code.py (written in place) also nine sub-page prefixes per workload, as file systems with a smaller write granularity can leave them",
     "single-threaded writer; 'after call k' equals 'before call k+1' as a file-system state and is enumerated once",
     "recovery may warn but must neither raise nor return a value different from the plain function; every file named "
     "output.pkl must load to one complete legitimate result",
@@ -115,6 +115,7 @@ def crash_plan(evs):
         plan.append((evs[-1]["n"], "after"))
     # file offsets: track bytes written per path since its (re)creation
     off = {}
+    subpage = set()
     for e in evs:
         if e["op"] == "open":
             off[e["path"]] = 0
@@ -126,6 +127,15 @@ def crash_plan(evs):
                 plan.append((e["n"], f"torn:{b - start}"))
                 b += 4096
             off[e["path"]] = end
+            if path_class(e["path"]) == "func_code.py" and start == 0 and e["path"] not in subpage:
+                # func_code.py is the one file joblib writes IN PLACE under its final name.  On a local Linux file system a kill
+                # tears a write at page boundaries only; file systems with a smaller write granularity (network / FUSE mounts)
+                # can leave any prefix: a few prefixes inside the '# first line: N' header and inside the text are tried for the
+                # first write of the file in each workload
+                subpage.add(e["path"])
+                for n in sorted({1, 5, 12, 13, 14, 15, 17, e["arg"] // 2, e["arg"] - 1}):
+                    if 0 < n < e["arg"] and n % 4096:
+                        plan.append((e["n"], f"torn:{n}"))
     return plan
 
 
